@@ -553,7 +553,7 @@ class PartitionedArray(object):
         negaxis = -axis
         if not branch and negaxis <= 0:
             negaxis += depth
-        if not branch and negaxis == depth:
+        if negaxis == depth:
             if initial is None:
                 return getattr(self.toContent(), name)(axis, mask, keepdims)
             else:
